@@ -179,9 +179,10 @@ def main(tier, seed):
     total = {"states": 0, "transitions": 0}
     runs = []
     if tier == "quick":
-        plan = [(m, ["c4", "md5", "xxh64"], 3, 2) for m in MODES] + [("folder", ["c4", "md5", "xxh64"], 4, 0)]
+        plan = [(m, ["c4", "md5", "xxh64"], 3, 2) for m in MODES] + [("folder", ["c4", "md5", "xxh64"], 4, 0)] + \
+               [(m, ["md5", "xxh64"], 5, 2) for m in MODES]   # long sequences over two formats: a format added later, failed, checked again
     else:
-        plan = [(m, ["c4", "md5", "xxh64"], 4, 2) for m in MODES] + \
+        plan = [(m, ["c4", "md5", "xxh64"], 4, 2) for m in MODES] + [(m, ["md5", "xxh64"], 6, 3) for m in MODES] + \
                [("folder", ref.FORMATS_CLI, 3, 0), ("nested", ["c4", "md5", "sha1", "xxh64"], 3, 2),
                 ("sf", ["c4", "md5", "sha1", "xxh64"], 3, 2)]
     for mode, fmts, max_gen, max_edits in plan:
